@@ -183,8 +183,8 @@ def _alloc_mc(c, tier):
     c.mc_phase("BuddyMC.tla", "BuddyMC.cfg", "every reachable tree of an 8-leaf arena: bookkeeping, disjointness, reuse", workers=4, timeout=600)
     if tier == "thorough":
         c.mc_phase("BuddyMC.tla", "BuddyMC_16.cfg", "every reachable tree of a 16-leaf arena (458,330 states)", workers=16, timeout=2400, heap="16g")
-        c.mc_phase("CkptMC.tla", "CkptMC.cfg", "multi-arena allocator with checkpoints/restore/fossil, small world, time-boxed BFS",
-                   workers=16, timeout=1500, heap="24g", ok_timeout=True)
+        c.mc_phase("CkptMC.tla", "CkptMC.cfg", "multi-arena allocator with checkpoints/restore/fossil: 2 arenas of 4 leaves, 2 checkpoints, histories of "
+                   "4 operations with restores and fossil collections to every position (2.8M states)", workers=16, timeout=3000, heap="24g")
 
 
 ALLOC_RULE = ("system runs: generated models x configurations x schedules (distinct by model, configuration, schedule seed); allocator driver: random "
